@@ -53,10 +53,32 @@ var formats = []string{"json", "yaml", "toml", "cue"}
 // tagNameOf is the struct tag each decoder reads (the Cue decoder reads json
 // tags; a `cue` tag means nothing to it).
 func tagNameOf(format string) string {
-	if format == "cue" {
+	switch format {
+	case "cue":
 		return "json"
+	case "yamlflat":
+		return "yaml"
 	}
 	return format
+}
+
+// agreeFormats adds the YAML decoder with FlattenAnonymous (as ez configures
+// it with FlattenAnonymousFields) to the four formats.
+var agreeFormats = []string{"json", "yaml", "toml", "cue", "yamlflat"}
+
+// embeddedKey says where the leaves of an untagged embedded struct field live
+// in a document (read off the libraries and confirmed on the unmodified tree):
+// encoding/json and Cue promote them into the parent, and so does the YAML
+// decoder with FlattenAnonymous; yaml.v2 alone nests them under the
+// lower-cased type name, go-toml under the type name.
+func embeddedKey(sf reflect.StructField, format string) (key string, promoted bool) {
+	switch format {
+	case "yaml":
+		return strings.ToLower(sf.Name), false
+	case "toml":
+		return sf.Name, false
+	}
+	return "", true
 }
 
 // tagName is the name part of a struct tag value ("addr,omitempty" -> "addr").
@@ -138,7 +160,18 @@ func buildStruct(n *dnode, t reflect.Type, prefix []string, l shape.Layer, decoy
 			if st.Kind() == reflect.Pointer {
 				st = st.Elem()
 			}
-			k := &dnode{kind: 'm', isStruct: true, key: keyFor(sf, format), path: path, typ: sf.Type}
+			key := keyFor(sf, format)
+			if sf.Anonymous {
+				ek, promoted := embeddedKey(sf, format)
+				if promoted {
+					sub := &dnode{kind: 'm', isStruct: true}
+					buildStruct(sub, st, names, l, decoy, format, setsAsLists, pk)
+					n.kids = append(n.kids, sub.kids...)
+					continue
+				}
+				key = ek
+			}
+			k := &dnode{kind: 'm', isStruct: true, key: key, path: path, typ: sf.Type}
 			buildStruct(k, st, names, l, decoy, format, setsAsLists, pk)
 			n.kids = append(n.kids, k)
 		}
@@ -151,6 +184,17 @@ func buildStruct(n *dnode, t reflect.Type, prefix []string, l shape.Layer, decoy
 }
 
 func valueNode(v reflect.Value, format string, setsAsLists bool, pk pick) *dnode {
+	if txt, ok := textOf(v); ok {
+		return &dnode{kind: 's', val: txt}
+	}
+	return structureNode(v, format, setsAsLists, pk)
+}
+
+// structureNode spells a value by its structure (never as text).
+func structureNode(v reflect.Value, format string, setsAsLists bool, pk pick) *dnode {
+	if v.Kind() == reflect.Pointer {
+		return structureNode(v.Elem(), format, setsAsLists, pk)
+	}
 	switch v.Type() {
 	case durT:
 		return &dnode{kind: 's', val: time.Duration(v.Int())}
@@ -186,7 +230,9 @@ func valueNode(v reflect.Value, format string, setsAsLists bool, pk pick) *dnode
 				continue
 			}
 			kid := valueNode(fv, format, setsAsLists, pk)
-			kid.key = keyFor(sf, format)
+			if kid.key = keyFor(sf, format); kid.key == "" {
+				kid.key = sf.Name
+			}
 			n.kids = append(n.kids, kid)
 		}
 		return n
@@ -745,7 +791,7 @@ func render(format string, root *dnode, pk pick) string {
 	switch format {
 	case "json":
 		return emitJSON(root, pk)
-	case "yaml":
+	case "yaml", "yamlflat":
 		return emitYAML(root, pk)
 	case "toml":
 		return emitTOML(root, pk)
